@@ -333,7 +333,14 @@ arr_list
     :
         { $$ = 0 }
     | arr_list '[' ']'
-        { $$++ }
+        {
+            if $1 == 32767 {
+                // The dimension is stored in an int16.
+                mmlex.(*mmLexInfo).err = "too many array dimensions"
+                return 1
+            }
+            $$ = $1 + 1
+        }
     ;
 
 in_param_list
